@@ -555,8 +555,9 @@ pub fn model_leg(args: &Args) {
         rep.add(&format!("cmd:{}", c), *n);
     }
     let wanted = ["GET", "SET", "INCR", "APPEND", "EXPIRE", "PTTL", "LPUSH", "LRANGE", "SADD", "HSET", "ZADD", "ZRANGE", "RENAME", "DEL"];
-    for w in wanted {
-        if !per_cmd.contains_key(w) {
+    // the interpreter-sized run (a handful of sequences under Miri) is there for undefined behaviour, not for coverage
+    for w in wanted.iter().filter(|_| !cfg!(miri)) {
+        if !per_cmd.contains_key(*w) {
             rep.inconclusive(format!("command {} was never generated", w));
         }
     }
